@@ -21,6 +21,7 @@ mod c14;
 mod c15;
 mod c16;
 mod c17;
+mod c18;
 mod c19;
 mod c20;
 
@@ -81,6 +82,7 @@ fn main() {
         "c15" => c15::run(opts),
         "c16" => c16::run(opts),
         "c17" => c17::run(opts),
+        "c18" => c18::run(opts),
         "c19" => c19::run(opts),
         "c20" => c20::run(opts),
         other => {
